@@ -977,6 +977,15 @@ def history_check(ctx, name, call, rng, M, coll_log10, info=None):
         ok_v, u2 = ctx.attempt(call, None)
         if ok_v:
             ctx.count("unseeded-call:same-global-seed-same-output:" + str(digest(u1) == digest(u2)))
+            # Without a seed the calls share numpy's global stream: it is the "shared generator" of the statement for the
+            # default argument, so two successive unseeded calls (no re-seeding in between) must not be copies of one
+            # another.  (Which state the global stream is left in is still only recorded.)
+            ok_w, u3 = ctx.attempt(call, None)
+            if ok_w and decisive:
+                ctx.truth("history.global-stream-advances", digest(u3) != digest(u2),
+                          key=f"{name}:unseeded:successive-calls-identical", info=dict(info, log10_collision=coll_log10))
+            else:
+                ctx.skip("history.global-stream-advances")
     return acts
 
 
